@@ -35,6 +35,7 @@ pub struct Wire<'a> {
     /// valid encodings collected for the corruption stream: (bo, offset, ty, full buffer, typed decoder)
     pub pool: Vec<(ByteOrder, usize, Ty, Vec<u8>)>,
     pub pool_cap: usize,
+    pub pool_rate: u64,
 }
 
 /// result of one decoder: Ok((consumed, canonical value rendering)) or Err(())
@@ -107,6 +108,18 @@ impl<'a> Wire<'a> {
         if let Some(t) = &typed {
             agree &= *t == p;
         }
+        // Raw validation does not look at descriptor indices, unmarshalling (0 descriptors attached here) refuses every
+        // one: "validate accepts, the unmarshallers reject" is the specified behaviour when a descriptor is decoded
+        // (type `h` in the signature, or - after a corruption - in a variant's signature bytes). The unmarshallers'
+        // verdict is compared with the model under `w.dec` (nfds = 0), the validator's under `w.val`.
+        let fd_dependent = v.is_ok() && p.is_err() && typed.as_ref().map(|t| t.is_err()).unwrap_or(true)
+            && (ty.sig().contains('h') || (ty.sig().contains('v') && buf.contains(&0x68)));
+        if fd_dependent {
+            agree = true;
+            self.out.hit("dec_fd_dependent");
+            let vreq = format!("w.val {} {} {} {}", bo_name(bo), off, ty.sig(), hex(buf));
+            self.out.case(&vreq, &format!("ok {}", v.unwrap()), nontrivial);
+        }
         let obs = if agree {
             show_dec(&p)
         } else {
@@ -128,12 +141,23 @@ impl<'a> Wire<'a> {
         let ty = T::ty();
         let sig = ty.sig();
         self.out.hit(&format!("type_depth_{}", ty.depth()));
-        for _ in 0..self.values_per_type {
-            let v = T::gen(&mut self.rng, 2);
+        let is_container = matches!(ty, Ty::Array(_) | Ty::Dict(_, _));
+        for round in 0..self.values_per_type + 1 {
+            // last round: a LONG outermost container (65..80 elements), one byte order, one phase
+            let long = round == self.values_per_type;
+            if long && !is_container {
+                break;
+            }
+            let v = T::gen(&mut self.rng, if long { crate::typed::LONG + 1 } else { 2 });
             let val = v.to_val();
             let vs = val.show();
-            for bo in ORDERS {
-                for &phase in &self.phases.clone() {
+            let orders: Vec<ByteOrder> = if long { vec![*self.rng.pick(&ORDERS)] } else { ORDERS.to_vec() };
+            let phases: Vec<usize> = if long { vec![*self.rng.pick(&self.phases)] } else { self.phases.clone() };
+            if long {
+                self.out.hit("long_container");
+            }
+            for bo in orders {
+                for &phase in &phases {
                     // ---- marshal at absolute offset `phase` (pre-filled context) -----------------
                     let mut buf = vec![0u8; phase];
                     let mut fds = Vec::new();
@@ -177,7 +201,8 @@ impl<'a> Wire<'a> {
                     if self.mode != Mode::C02 {
                         self.dec_case(bo, phase, &ty, &full, Some(typed_res), nontrivial);
                     }
-                    if self.pool.len() < self.pool_cap && full.len() <= 96 {
+                    // a few encodings of EVERY catalogue type go into the corruption pool (not just the first types)
+                    if self.pool.len() < self.pool_cap && full.len() <= 96 && self.rng.chance(1, self.pool_rate) {
                         self.pool.push((bo, phase, ty.clone(), full.clone()));
                     }
                 }
@@ -252,7 +277,11 @@ impl<'a> Wire<'a> {
             let d = self.rng.range(0, max_depth as u64) as usize;
             let ty = gen_ty(&mut self.rng, d, false);
             let mut fdc = 0;
-            let val = gen_val(&mut self.rng, &ty, 3, &mut fdc);
+            let long = matches!(ty, Ty::Array(_) | Ty::Dict(_, _)) && self.rng.chance(1, 12);
+            if long {
+                self.out.hit("long_container_param");
+            }
+            let val = gen_val(&mut self.rng, &ty, if long { crate::typed::LONG + 2 } else { 3 }, &mut fdc);
             let Some(param) = to_param(&ty, &val, &[]) else { continue };
             // the order in which the Param's maps iterate is the order on the wire
             let val = from_param(&param, &|_| 0);
@@ -282,45 +311,57 @@ impl<'a> Wire<'a> {
             if self.mode != Mode::C02 {
                 self.dec_case(bo, phase, &ty, &full, None, true);
             }
-            if self.pool.len() < self.pool_cap && full.len() <= 96 {
+            if self.pool.len() < self.pool_cap && full.len() <= 96 && self.rng.chance(1, 3) {
                 self.pool.push((bo, phase, ty.clone(), full));
             }
         }
     }
 
-    /// all single-fault corruptions of the pooled valid encodings
+    /// all single-fault corruptions of the pooled valid encodings: every byte +1, -1, +4, -4, ^0x80, :=0, :=0xFF and
+    /// truncation at every position; when a message has more faults than `per_message_cap` an evenly spread random
+    /// subset over the WHOLE message is taken (never just its first bytes)
     pub fn run_corruptions(&mut self, per_message_cap: usize) {
         let pool = std::mem::take(&mut self.pool);
         for (bo, off, ty, full) in &pool {
-            let mut n = 0;
             let start = *off;
-            'outer: for i in start..full.len() {
-                for kind in 0..5 {
-                    let mut m = full.clone();
-                    match kind {
-                        0 => m[i] = m[i].wrapping_add(1),
-                        1 => m[i] ^= 0x80,
-                        2 => {
-                            if m[i] == 0 {
-                                continue;
-                            }
-                            m[i] = 0
-                        }
-                        3 => {
-                            if m[i] == 0xFF {
-                                continue;
-                            }
-                            m[i] = 0xFF
-                        }
-                        _ => m.truncate(i),
-                    }
-                    self.out.hit("corruption");
-                    self.dec_case(*bo, *off, ty, &m, None, true);
-                    n += 1;
-                    if n >= per_message_cap {
-                        break 'outer;
-                    }
+            let mut faults: Vec<(usize, u8)> = Vec::new();
+            for i in start..full.len() {
+                for kind in 0..8u8 {
+                    faults.push((i, kind));
                 }
+            }
+            if faults.len() > per_message_cap {
+                // partial Fisher-Yates: the first `per_message_cap` entries become a uniform sample
+                for k in 0..per_message_cap {
+                    let j = k + self.rng.below((faults.len() - k) as u64) as usize;
+                    faults.swap(k, j);
+                }
+                faults.truncate(per_message_cap);
+            }
+            for (i, kind) in faults {
+                let mut m = full.clone();
+                match kind {
+                    0 => m[i] = m[i].wrapping_add(1),
+                    1 => m[i] ^= 0x80,
+                    2 => {
+                        if m[i] == 0 {
+                            continue;
+                        }
+                        m[i] = 0
+                    }
+                    3 => {
+                        if m[i] == 0xFF {
+                            continue;
+                        }
+                        m[i] = 0xFF
+                    }
+                    4 => m[i] = m[i].wrapping_sub(1),
+                    5 => m[i] = m[i].wrapping_add(4),
+                    6 => m[i] = m[i].wrapping_sub(4),
+                    _ => m.truncate(i),
+                }
+                self.out.hit("corruption");
+                self.dec_case(*bo, *off, ty, &m, None, true);
             }
             // other byte order, other offset phase: the same bytes must be re-judged
             let other = if *bo == ByteOrder::LittleEndian { ByteOrder::BigEndian } else { ByteOrder::LittleEndian };
@@ -497,7 +538,9 @@ pub fn run(cfg: &Cfg, mode: Mode) {
             },
             phases: (0..8).collect(),
             pool: Vec::new(),
-            pool_cap: if cfg.thorough { 6000 } else { 800 },
+            pool_cap: if cfg.thorough { 12000 } else { 2500 },
+            // 326 types x values x 2 x 8 encodings: keep about 4 per type (quick) / 12 per type (thorough)
+            pool_rate: if cfg.thorough { 50 } else { 4 },
         };
         run_catalogue(&mut w);
         w.run_param_stream(if cfg.thorough { 60_000 } else { 3_000 }, if cfg.thorough { 8 } else { 5 });
@@ -505,7 +548,7 @@ pub fn run(cfg: &Cfg, mode: Mode) {
             w.run_unencodable(if cfg.thorough { 5000 } else { 400 });
         }
         if mode == Mode::C03 {
-            w.run_corruptions(if cfg.thorough { 400 } else { 120 });
+            w.run_corruptions(if cfg.thorough { 600 } else { 160 });
             w.run_random_bytes(if cfg.thorough { 300_000 } else { 20_000 });
         }
     }
@@ -513,7 +556,7 @@ pub fn run(cfg: &Cfg, mode: Mode) {
     let rule = match mode {
         Mode::C01 => "every catalogue type x generated values x {LE,BE} x 8 start offsets: marshal (w.enc), typed+param+validate decode of the bytes followed by a sentinel (w.dec), whole-body round trip with `phase` byte parameters before and a u32 after (w.body); plus random Param trees; distinct by request text; non-trivial = container type, or padding needed, or more than 8 bytes",
         Mode::C02 => "every catalogue type x generated values x {LE,BE} x 8 start offsets marshalled into a pre-filled context and compared byte for byte with the model's encoding; random Param trees (depth up to the bound) through marshal_param; distinct by request text; non-trivial as for C01",
-        Mode::C03 => "valid encodings (catalogue + random Param trees) decoded by validate_raw, Param unmarshal and typed unmarshal; every single-byte corruption (+1, ^0x80, :=0, :=0xFF, truncate) of pooled encodings up to 96 bytes; the same bytes under the other byte order; random byte strings under random signatures; distinct by request text",
+        Mode::C03 => "valid encodings (catalogue + random Param trees) decoded by validate_raw, Param unmarshal and typed unmarshal; single-byte corruptions (+1, -1, +4, -4, ^0x80, :=0, :=0xFF, truncate at every position; an evenly spread sample when over the per-message cap) of pooled encodings up to 96 bytes; containers with 65..80 elements; the same bytes under the other byte order; random byte strings under random signatures; distinct by request text",
     };
     out.finish(rule, false);
 }
